@@ -146,7 +146,7 @@ CONSTANTS
   CtxDictShared = {_b(sw['CtxDictShared'])}
   Cfgs = {{}}
   MaxNow = 100000
-  Outcomes = {{"ret", "exc", "base", "nores"}}
+  Outcomes = {{"ret", "exc", "base", "nores", "cerr"}}
   AllowedViol = {{}}
 INVARIANT Progress
 POSTCONDITION Done
@@ -167,7 +167,7 @@ def mc(cfgs: List[Dict[str, Any]], outcomes: List[str], max_now: int, allowed: L
         path = os.path.join(scratch, "cfgs.json")
         with open(path, "w") as f:
             json.dump([tla_view(normalize(c)) for c in cfgs], f)
-        inv = invariants or ["NoViolation", "SlotConservation", "QueueBound", "TypeOK"]
+        inv = invariants or ["NoViolation", "SlotConservation", "QueueBound", "TypeOK", "NoStuckMessage"]
         text = f"""SPECIFICATION {'FairSpec' if fair else 'Spec'}
 CONSTANTS
   LookaheadAfterLimit = {_b(sw['LookaheadAfterLimit'])}
